@@ -2,6 +2,7 @@ PROP = {
     "id": "C07",
     "harness": "c07",
     "driver": "c07",
+    "tie2": ["Tie2Responder"],
     "n_quick": 8,
     "n_thorough": 300,
     "harness_timeout": 2400,
